@@ -59,7 +59,9 @@ RULE = ('cases: every seed object under seeds/c11 and every ELF under test/testf
         'zlib / zlib-gnu / only-keep-debug + debuglink variants; debug links with right and wrong CRC, with and without a '
         'loader, follow_links on/off; .gnu_debugaltlink / .debug_sup; unstripped files with their own info plus a debug link; 300 KB runs inside random data (multi-block zlib streams, real library only); '
         'the stock load_from_path loader on files in a temporary directory with ASCII / UTF-8 / non-UTF-8 link and directory names; '
-        'call sequences on one ELFFile object (each answer = the stateless view of its own flags); pairs carrying the '
+        'DWARF 5 line tables naming directories/files by strp_sup / GNU_strp_alt into a supplementary file holding both string sections, '
+        'against the plain table; relocate_dwarf_sections drawn independently of follow_links through links to relocatable objects; '
+        'legacy/gABI declared sizes off by multiples of 2^32 and 2^63; call sequences on one ELFFile object (each answer = the stateless view of its own flags); pairs carrying the '
         'same NT_GNU_BUILD_ID note with per-byte CRC corruptions and payload modifications; two-hop chains debug link -> supplementary link (own builders and the '
         'dwz-produced test files whose DIEs use the alt/sup forms); keep-debug = unobserved sections made SHT_NOBITS), presence truth table over all subsets of {.debug_info, .zdebug_info, '
         '.eh_frame, .gnu_debuglink, .gnu_debugaltlink, .debug_sup} x strict x loader x class x byte order on section-only files, '
@@ -393,6 +395,18 @@ def gen(ctx):
     for name in tests:
         if name.endswith('.debug') and ('altlink' in name or 'debugsup' in name):      # dwz-produced: alt/sup FORMS in the DIEs
             cases.append(('chain', ['test:' + name, '', '', 'test', rng.getrandbits(32)]))
+            cases.append(('chain', ['test:' + name, '', '', 'test', rng.getrandbits(32), 0]))
+    # the two options are independent: relocate_dwarf_sections=False through a link, the linked file being a
+    # relocatable object (its .rela.debug_* must NOT be applied) that has a supplementary link of its own (still followed)
+    objs = [n for n in seeds if n.endswith('.o')]
+    for k, name in enumerate(objs):
+        cases.append(('chain', ['seed:' + name, 'seed:' + seeds[(k + 2) % len(seeds)], ['alt', 'sup'][k % 2], 'own',
+                                rng.getrandbits(32), 0]))
+        cases.append(('link', ['seed:' + name, 'own', 'right', 1, 1, 'plain', 0]))
+        if k % 2 == 0:
+            cases.append(('chain', ['seed:' + name, 'seed:' + seeds[(k + 5) % len(seeds)], ['sup', 'alt'][k % 2], 'own',
+                                    rng.getrandbits(32), 1]))
+            cases.append(('link', ['seed:' + name, 'own', 'right', 0, 1, 'plain', 0]))
     # files that carry their OWN debug info (either naming, or gABI-compressed) AND a .gnu_debuglink: the link is inert
     for k, name in enumerate(seeds):
         other = seeds[(k + 4) % len(seeds)]
@@ -416,6 +430,14 @@ def gen(ctx):
                 cases.append(('stock_loader', ['seed:' + small[k % len(small)], 'seed:' + small[(k + 1) % len(small)],
                                                lk, nc, dc, pt, rng.getrandbits(32)]))
                 k += 1
+    # DWARF 5 line tables whose directory / file names are DW_FORM_strp_sup / DW_FORM_GNU_strp_alt references into a
+    # supplementary file that has BOTH .debug_str and .debug_line_str (different strings at the same offsets),
+    # against the same table stored plainly (DW_FORM_strp / DW_FORM_line_strp into the file's own tables)
+    for le in (0, 1):
+        for is64 in (0, 1):
+            for enc in ('alt', 'sup'):
+                for ref in ('strp', 'line_strp'):
+                    cases.append(('lnsup', [le, is64, enc, ref, rng.getrandbits(32)]))
     # call sequences on ONE ELFFile object: the answer to a call depends on its own arguments only
     seqs = [[(1, 1), (1, 0)], [(1, 0), (1, 1)], [(1, 1), (0, 0), (1, 1), (0, 1)], [(0, 0), (1, 1), (1, 0), (0, 1), (0, 0)]]
     for k in range(0, len(seeds), ctx.scale(3, 1)):
@@ -460,8 +482,10 @@ def gen(ctx):
         for mut in ('magic0', 'magic3', 'magic_lower', 'size+1', 'size-1', 'size0', 'sizeLE', 'size_huge', 'trunc_half',
                     'trunc_1', 'trunc_4', 'trunc_all', 'short12', 'short5', 'garbage', 'trailing', 'empty_payload'):
             cases.append(('zbad', [src, mut, rng.getrandbits(32)]))
+        for mut in ('size+2^32', 'size+2^33', 'size+2^40', 'size+2^63', 'size_hi_ones'):     # right low word, wrong high word
+            cases.append(('zbad', [src, mut, rng.getrandbits(32)]))
         for mut in ('size+1', 'size-1', 'size1', 'size0', 'size_huge', 'type', 'trunc_half', 'trunc_4', 'garbage', 'trailing',
-                    'chdr_short'):
+                    'chdr_short', 'size+2^32', 'size+2^40', 'size_hi_ones'):
             cases.append(('gbad', [src, mut, rng.getrandbits(32)]))
     # CRC-32
     cases.append(('crc', [b'123456789']))
@@ -827,7 +851,8 @@ def h_objcopy(ctx, kind, a):
 
 
 def h_link(ctx, kind, a):
-    src, variant, crcmode, follow, ld, inner = a
+    src, variant, crcmode, follow, ld, inner = a[:6]
+    relocate = a[6] if len(a) > 6 else 1                  # relocate_dwarf_sections, drawn independently of follow_links
     if variant in ('own', 'ownid'):
         elf = _elf(_load(src))
         if variant == 'ownid':
@@ -870,10 +895,10 @@ def h_link(ctx, kind, a):
             dbg = dbg[:-1] + bytes([dbg[-1] ^ 0x40])      # same size, one bit changed
     fs = {name: dbg} if ld == 1 else ({b'some/other.file': dbg} if ld == 2 else None)
     tbl = yield from _tbl_for([stripped, dbg])
-    (m, s_s), (md, s_d), (mo, s_own) = yield [_view_req(stripped, fs, 1, follow, ld != 0, tbl),
-                                              _view_req(dbg, fs, 1, 1, ld != 0, tbl),
-                                              _view_req(stripped, None, 1, 0, False, tbl)]
-    iv = impl_view(stripped, fs, True, bool(follow))
+    (m, s_s), (md, s_d), (mo, s_own) = yield [_view_req(stripped, fs, relocate, follow, ld != 0, tbl),
+                                              _view_req(dbg, fs, relocate, 1, ld != 0, tbl),
+                                              _view_req(stripped, None, relocate, 0, False, tbl)]
+    iv = impl_view(stripped, fs, bool(relocate), bool(follow))
     followed = bool(follow) and ld == 1
     indom = True
     if followed and crcmode == 'right':
@@ -885,7 +910,7 @@ def h_link(ctx, kind, a):
     else:
         spec, key = canon_spec(s_own), 'link-not-followed-view-differs'  # not followed: the file's own view
     _record_view(ctx, kind, a, iv, m, spec, key=key, in_domain=indom)
-    if followed and crcmode == 'right':
+    if followed and crcmode == 'right' and relocate:
         want = impl_dump(orig, None, eh=False)
         ctx.record('link_dump', a, impl=impl_dump(stripped, fs, eh=False), spec=want, model=None, in_domain=want[0] != 'err',
                    nontrivial=True, key='C11/link-dump-differs')
@@ -969,7 +994,8 @@ def h_sup(ctx, kind, a):
 def h_chain(ctx, kind, a):
     """composition of the two link kinds: what is seen through a debug link is the debug file's view INCLUDING the
     supplementary file it names, resolved by the same loader (C11_view_two_hop)"""
-    main_src, sup_src, enc, variant, seed = a
+    main_src, sup_src, enc, variant, seed = a[:5]
+    relocate = a[5] if len(a) > 5 else 1
     rng = _mk_rng(seed)
     if variant == 'own':
         main, supimg = _elf(_load(main_src)), _load(sup_src)
@@ -994,20 +1020,21 @@ def h_chain(ctx, kind, a):
     stripped = strip_debug(delf, body)
     fs = dict(extra)
     fs[dbgname] = dbg
-    iv = impl_view(stripped, fs, True, True)
-    want = impl_dump(dbg, fs, eh=False)                  # the debug file opened directly with the same loader
-    ctx.record('chain_dump', a, impl=impl_dump(stripped, fs, eh=False), spec=want, model=None, in_domain=want[0] != 'err',
-               nontrivial=True, key='C11/chain-dump-differs')
+    iv = impl_view(stripped, fs, bool(relocate), True)
+    if relocate:
+        want = impl_dump(dbg, fs, eh=False)              # the debug file opened directly with the same loader
+        ctx.record('chain_dump', a, impl=impl_dump(stripped, fs, eh=False), spec=want, model=None, in_domain=want[0] != 'err',
+                   nontrivial=True, key='C11/chain-dump-differs')
     if any(len(v) > MODEL_MAX for v in list(fs.values()) + [stripped]):
         ctx.bump('model_skipped_large', kind)
-        direct = impl_view(dbg, fs, True, True)
+        direct = impl_view(dbg, fs, bool(relocate), True)
         icore, iextra = split_impl(iv)
         dcore, _ = split_impl(direct)
         ctx.record(kind, a, impl=icore, spec=dcore, model=None, in_domain=dcore != 'rejected', nontrivial=True,
                    key='C11/chain-view-differs')
         return
     tbl = yield from _tbl_for([stripped] + list(fs.values()))
-    (m, s_s), (md, s_d) = yield [_view_req(stripped, fs, 1, 1, True, tbl), _view_req(dbg, fs, 1, 1, True, tbl)]
+    (m, s_s), (md, s_d) = yield [_view_req(stripped, fs, relocate, 1, True, tbl), _view_req(dbg, fs, relocate, 1, True, tbl)]
     spec = canon_spec(s_d)
     _record_view(ctx, kind, a, iv, m, spec, key='chain-view-differs', in_domain=spec != 'rejected',
                  nontrivial=spec != 'rejected' and spec[2] != 'none')
@@ -1124,6 +1151,91 @@ def h_stock_loader(ctx, kind, a):
     sup_or_link = want != 'rejected' and (lk == 'debuglink' or want[2] != 'none')
     ctx.record(kind, a, impl=got, spec=want, model=None, in_domain=want != 'rejected', nontrivial=sup_or_link,
                key='C11/stock-loader-view-differs')
+
+
+def _uleb(n):
+    out = bytearray()
+    while True:
+        b = n & 0x7f
+        n >>= 7
+        out.append(b | (0x80 if n else 0))
+        if not n:
+            return bytes(out)
+
+
+def _line_unit(le, addr_size, form, dir_offs, files):
+    """a DWARF 5 (32-bit format) line-number unit: directory entries = (DW_LNCT_path, form), file entries =
+    (DW_LNCT_path, form) (DW_LNCT_directory_index, DW_FORM_udata); the program is one DW_LNE_end_sequence"""
+    en = '<' if le else '>'
+    after = bytes([1, 1, 1, 0xfb, 14, 13]) + bytes([0, 1, 1, 1, 1, 0, 0, 0, 1, 0, 0, 1])
+    after += bytes([1]) + _uleb(1) + _uleb(form) + _uleb(len(dir_offs)) + b''.join(struct.pack(en + 'I', o) for o in dir_offs)
+    after += bytes([2]) + _uleb(1) + _uleb(form) + _uleb(2) + _uleb(0x0f) + _uleb(len(files))
+    after += b''.join(struct.pack(en + 'I', o) + _uleb(d) for o, d in files)
+    rest = struct.pack(en + 'H', 5) + bytes([addr_size, 0]) + struct.pack(en + 'I', len(after)) + after + bytes([0, 1, 1])
+    return struct.pack(en + 'I', len(rest)) + rest
+
+
+def _cu_with_stmt_list(le, addr_size):
+    en = '<' if le else '>'
+    abbrev = bytes([1, 0x11, 0, 0x10, 0x17, 0, 0, 0])                       # CU, no children, DW_AT_stmt_list sec_offset
+    rest = struct.pack(en + 'H', 5) + bytes([1, addr_size]) + struct.pack(en + 'I', 0) + bytes([1]) + struct.pack(en + 'I', 0)
+    return abbrev, struct.pack(en + 'I', len(rest)) + rest
+
+
+def _line_names(img, fs):
+    from elftools.elf.elffile import ELFFile
+    e = ELFFile(io.BytesIO(img), _loader_of(fs))
+    di = e.get_dwarf_info()
+    cu = next(di.iter_CUs())
+    lp = di.line_program_for_CU(cu)
+    return [[bytes(d) for d in lp.header.include_directory],
+            [[bytes(f.name), f.dir_index] for f in lp.header.file_entry], len(lp.get_entries())]
+
+
+def h_lnsup(ctx, kind, a):
+    """line tables behind a supplementary link = the same tables stored plainly"""
+    le, is64, enc, ref, seed = a
+    rng = _mk_rng(seed)
+    word = lambda n, alpha: bytes(rng.choice(alpha) for _ in range(n))
+    lens = [rng.randrange(1, 12) for _ in range(5)]
+    def table(alpha):
+        t, offs = b'\0', []
+        for n in lens:
+            offs.append(len(t))
+            t += word(n, alpha) + b'\0'
+        return t, offs
+    s1, offs = table(b'abcdefghijklm/._')              # the strings the names refer to (sup .debug_str)
+    s2, _ = table(b'NOPQRSTUVWXYZ')                      # same offsets, other strings (sup .debug_line_str)
+    s3, _ = table(b'0123456789')                         # decoys in the primary file's own tables
+    dirs, files = offs[:2], [(offs[2], 0), (offs[3], 1), (offs[4], 1)]
+    asz = 8 if is64 else 4
+    abbrev, info = _cu_with_stmt_list(bool(le), asz)
+    supname = b'sup/' + word(rng.randrange(1, 8), b'abcdefgh') + b'.sup'
+    ident = bytes(rng.getrandbits(8) for _ in range(20))
+    alt, sup0, sup1 = yield [['altlink_body', supname, ident], ['debugsup_body', le, 5, 0, supname, bytes([20]) + ident],
+                             ['debugsup_body', le, 5, 1, b'', bytes([20]) + ident]]
+    supsecs = [(b'.debug_str', 1, 0x30, 0, s1), (b'.debug_line_str', 1, 0x30, 0, s2)]
+    if enc == 'sup':
+        supsecs.append((b'.debug_sup', 1, 0, 0, sup1))
+    supimg = U.build_elf(bool(le), bool(is64), 62, 0, supsecs)
+    form = 0x1d if enc == 'sup' else 0x1f21                # DW_FORM_strp_sup / DW_FORM_GNU_strp_alt
+    link = (b'.debug_sup', 1, 0, 0, sup0) if enc == 'sup' else (b'.gnu_debugaltlink', 1, 0, 0, alt)
+    base = [(b'.text', 1, 6, 0x1000, b'\xc3'), (b'.debug_abbrev', 1, 0, 0, abbrev), (b'.debug_info', 1, 0, 0, info)]
+    a_img = U.build_elf(bool(le), bool(is64), 62, 0, base + [
+        (b'.debug_line', 1, 0, 0, _line_unit(bool(le), asz, form, dirs, files)),
+        (b'.debug_str', 1, 0x30, 0, s3), (b'.debug_line_str', 1, 0x30, 0, s3), link])
+    pform = 0x0e if ref == 'strp' else 0x1f                # DW_FORM_strp / DW_FORM_line_strp
+    b_img = U.build_elf(bool(le), bool(is64), 62, 0, base + [
+        (b'.debug_line', 1, 0, 0, _line_unit(bool(le), asz, pform, dirs, files)),
+        (b'.debug_str', 1, 0x30, 0, s1 if ref == 'strp' else s3), (b'.debug_line_str', 1, 0x30, 0, s3 if ref == 'strp' else s1)])
+    cut = lambda o: s1[o:s1.index(b'\0', o)]
+    literal = [[cut(o) for o in dirs], [[cut(o), d] for o, d in files], 1]
+    plain = framework.impl_call(_line_names, b_img, None)
+    got = framework.impl_call(_line_names, a_img, {supname: supimg})
+    ctx.record(kind, a, impl=got, spec=plain, model=None, in_domain=plain == literal, nontrivial=True,
+               key='C11/line-table-behind-sup-link-differs')
+    ctx.record('lnsup_plain', a, impl=plain, spec=literal, model=None, in_domain=True, nontrivial=True,
+               key='C11/line-table-plain-reference-differs')
 
 
 def h_seq(ctx, kind, a):
@@ -1288,7 +1400,7 @@ def h_synth(ctx, kind, a):
     ctx.bump('synth_cfg', '%s%s%s' % ('LE' if le else 'BE', 64 if is64 else 32, '-phantom' if phantom else ''))
 
 
-MUST_REJECT = {'magic0', 'magic3', 'magic_lower', 'size+1', 'size-1', 'size0', 'size1', 'sizeLE', 'size_huge',
+MUST_REJECT = {'size+2^32', 'size+2^33', 'size+2^40', 'size+2^63', 'size_hi_ones', 'magic0', 'magic3', 'magic_lower', 'size+1', 'size-1', 'size0', 'size1', 'sizeLE', 'size_huge',
                'trunc_half', 'trunc_all', 'short12', 'short5', 'type', 'garbage', 'chdr_short'}
 ACCEPT = {'trailing', 'empty_payload'}
 
@@ -1309,6 +1421,9 @@ def h_bad(ctx, kind, a):
     elif mut == 'size0': size = 0
     elif mut == 'sizeLE': size = int.from_bytes(len(body).to_bytes(8, 'big'), 'little')
     elif mut == 'size_huge': size = 2 ** (64 if (elf.is64 or kind == 'zbad') else 32) - 1
+    elif mut.startswith('size+2^'):
+        size += 2 ** int(mut[7:])
+    elif mut == 'size_hi_ones': size += 0xffffffff << 32
     elif mut == 'trunc_half': blob = blob[:len(blob) // 2]
     elif mut == 'trunc_1': blob = blob[:-1]
     elif mut == 'trunc_4': blob = blob[:-4]
@@ -1317,6 +1432,8 @@ def h_bad(ctx, kind, a):
     elif mut == 'trailing': blob = blob + b'TRAILING GARBAGE'
     elif mut == 'empty_payload':
         blob, size = zlib.compress(b'', 6), 0
+    if kind == 'gbad' and size >= 2 ** 32 and not elf.is64:
+        raise Skip('ch_size is a 32-bit field in this class')
     if kind == 'zbad':
         (fb,) = yield [['zdebug_body', size, blob]]
         if mut == 'magic0': fb = b'Y' + fb[1:]
@@ -1412,6 +1529,6 @@ def h_linkparse(ctx, kind, a):
     ctx.record(kind, a, impl=impl, spec=spec, model=model, in_domain=complete, nontrivial=True, key='C11/debuglink-parse')
 
 
-HANDLERS = {'plain': h_plain, 'link_own': h_link_own, 'bigrun': h_bigrun, 'stock_loader': h_stock_loader, 'seq': h_seq, 'presence_tt': h_presence_tt, 'keepdebug': h_keepdebug, 'chain': h_chain, 'presence_file': h_presence_file, 'gabi': h_reencode, 'zgnu': h_reencode,
+HANDLERS = {'plain': h_plain, 'lnsup': h_lnsup, 'link_own': h_link_own, 'bigrun': h_bigrun, 'stock_loader': h_stock_loader, 'seq': h_seq, 'presence_tt': h_presence_tt, 'keepdebug': h_keepdebug, 'chain': h_chain, 'presence_file': h_presence_file, 'gabi': h_reencode, 'zgnu': h_reencode,
             'objcopy': h_objcopy, 'link': h_link, 'link_path': h_link_path, 'sup': h_sup, 'presence': h_presence,
             'synth': h_synth, 'zbad': h_bad, 'gbad': h_bad, 'crc': h_crc, 'crc_rand': h_crc, 'linkparse': h_linkparse}
